@@ -379,11 +379,48 @@ func c09Kauri(c *Ctx) {
 	}
 	fl := NewFlow(p, mc)
 	blk := kBCGet + "p0->" + kKauri + "blockchain, p0->" + kKauri + "blockHash)"
+	// the block of the aggregation may be looked up by mergeContribution or by its callers, which then pass it in:
+	// a *Block parameter counts if every caller passes Get(blockchain, blockHash)#0 under found == true
+	blockParams := map[string]bool{}
+	for i, prm := range mc.Params {
+		if i < 2 || prm.Type().String() != "*"+modPath+".Block" {
+			continue
+		}
+		callers := callIndexOf(p).callers[mc]
+		ok := len(callers) > 0
+		for _, r := range callers {
+			ci, isCall := r.Instr.(ssa.CallInstruction)
+			if !isCall || i >= len(ci.Common().Args) {
+				ok = false
+				continue
+			}
+			rfl := NewFlow(p, r.In)
+			ak := rfl.K.Key(ci.Common().Args[i])
+			if !(strings.HasPrefix(ak, blk) && strings.HasSuffix(ak, "#0") && trueOf(rfl.At(r.Instr), is(strings.TrimSuffix(ak, "#0")+"#1"))) {
+				ok = false
+			}
+		}
+		if ok {
+			blockParams["p"+itoa(i)] = true
+		}
+	}
 	verified := func(s FactSet) bool {
 		return errNilOf(s, func(k string) bool {
-			return strings.HasPrefix(k, kBaseVer) && strings.Contains(k, ", p1, (*hs.Block).ToBytes("+blk) && strings.Contains(k, "#0)")
+			if !strings.HasPrefix(k, kBaseVer) {
+				return false
+			}
+			if strings.Contains(k, ", p1, (*hs.Block).ToBytes("+blk) && strings.Contains(k, "#0)") {
+				return true
+			}
+			for bp := range blockParams {
+				if strings.Contains(k, ", p1, (*hs.Block).ToBytes("+bp+")") {
+					return true
+				}
+			}
+			return false
 		})
 	}
+	storedAgg := map[string]bool{"p0->" + kKauri + "aggContrib": true}
 	n := 0
 	isAggStore := func(in ssa.Instruction) bool {
 		st, ok := in.(*ssa.Store)
@@ -400,6 +437,7 @@ func c09Kauri(c *Ctx) {
 		n++
 		facts := d.Facts
 		val := d.Key(st.Val)
+		storedAgg[val] = true
 		okV := verified(facts)
 		c.Check(okV, "C09.7/verified", "mergeContribution: aggContrib := "+shortVal(val), p.InstrPos(in),
 			"aggContrib is updated only after auth.Verify(contribution, block.ToBytes()) == nil for the block of the current aggregation",
@@ -445,6 +483,14 @@ func c09Kauri(c *Ctx) {
 		si := d.Key(complitField(e.Alloc, "SyncInfo"))
 		okT := hasCmp(facts, "<=", contains(kQuorumSize), func(k string) bool { return strings.HasPrefix(k, kPartLen) && strings.Contains(k, "Base).Combine(") })
 		okQ := strings.HasPrefix(si, "hs.NewSyncInfoWith[hs.QuorumCert](hs.NewQuorumCert(p0->"+kKauri+"aggContrib, p0->"+kKauri+"currentView, p0->"+kKauri+"blockHash)")
+		if !okQ {
+			// the QC may be built from the value that was stored into aggContrib (handed to a helper that builds the message)
+			for x := range storedAgg {
+				if strings.HasPrefix(si, "hs.NewSyncInfoWith[hs.QuorumCert](hs.NewQuorumCert("+x+", p0->"+kKauri+"currentView, p0->"+kKauri+"blockHash)") {
+					okQ = true
+				}
+			}
+		}
 		if !okQ {
 			// the QC may be built from the local that was just stored into aggContrib
 			eachInstr(d.In, func(x ssa.Instruction) {
